@@ -1,6 +1,7 @@
 package main
 
 import (
+	"crypto/elliptic"
 	"fmt"
 	"math/big"
 	"math/rand"
@@ -182,15 +183,22 @@ func edKeys(n, t int, keys []*big.Int) ([]eddsakeygen.LocalPartySaveData, tss.So
 }
 
 func ecKeys(n, t int, keys []*big.Int) ([]ecdsakeygen.LocalPartySaveData, tss.SortedPartyIDs) {
+	return ecKeysOn(nil, n, t, keys)
+}
+
+func ecKeysOn(ec elliptic.Curve, n, t int, keys []*big.Int) ([]ecdsakeygen.LocalPartySaveData, tss.SortedPartyIDs) {
 	if keys == nil {
 		keys = defaultKeys(n, 1)
 	}
 	id := fmt.Sprintf("%d-%d-%v", n, t, keys)
+	if ec != nil {
+		id = ec.Params().Name + "-" + id
+	}
 	pids := mkPIDs(keys)
 	if ks, ok := ecKeyCache[id]; ok {
 		return ks, pids
 	}
-	rc := buildECDSAKeygen(n, t, kgOpts{keys: keys, seed: "eckeys-" + id})
+	rc := buildECDSAKeygen(n, t, kgOpts{keys: keys, seed: "eckeys-" + id, ec: ec})
 	rc.net.Rng = rand.New(rand.NewSource(1))
 	rc.net.Run(sched.FIFO, 100000)
 	out := make([]ecdsakeygen.LocalPartySaveData, n)
